@@ -40,7 +40,7 @@ def random_regex(rng, depth=0):
         if k < 0.55:
             return "[^" + "".join(rng.sample("abcd01", rng.randint(1, 2))) + "]"
         if k < 0.62:
-            return "[a-d]" if rng.random() < 0.5 else "[^0-9a-f]"
+            return rng.choice(["[a-d]", "[^0-9a-f]", "[\\W\\D]", "[^\\W\\D]", "[\\D\\S]", "[\\Wa]", "[\\d\\s]", "[^\\s\\d_]"])
         if k < 0.72:
             return rng.choice(["\\w", "\\W", "\\d", "\\D", "\\s", "\\S", "\\n", "\\t"])
         if k < 0.78:
